@@ -117,6 +117,15 @@ def main(tier_: str) -> int:
                     if a.atom_type == 'mdat':
                         continue
                     walk_classes(a)
+                    # rendering a tree (what a log line does) is part of the history of the process: it must not change
+                    # what later conversions produce
+                    try:
+                        repr(a), str(a)
+                        for sub in list(getattr(a, 'children', None) or [])[:6]:
+                            repr(sub)
+                            getattr(sub, 'as_python', lambda: None)()
+                    except Exception:      # noqa: BLE001  (formatting problems are not C04's business)
+                        pass
                     ja, jb = a.toJSON(pure=True), b.toJSON(pure=True)
                     lines.append({'ev': 'lazyeq', 'file': rel, 'atom': a.atom_type, 'eq': 1 if ja == jb else 0})
                     ref = tops_ref.top[idx]
